@@ -84,6 +84,7 @@ structure State where
   queue : Eid → List Tid
   owner : Eid → Option Tid                      -- ghost
   fetched : List (Key × Nat × Int × Int)        -- ghost: (key, response, createdAt, expiredAt) of every completed cacheable fetch
+  ups : Tid → Nat                               -- ghost: upstream requests this request has completed
 
 def upd {α : Type} [DecidableEq α] {β : Type} (f : α → β) (a : α) (b : β) : α → β :=
   fun x => if x = a then b else f x
@@ -99,7 +100,7 @@ theorem upd_apply {α : Type} [DecidableEq α] {β : Type} (f : α → β) (a x 
 
 def init (now : Int) (hasStore : Bool) : State :=
   { now := now, next := 0, entries := fun _ => { key := ⟨0⟩ }, shard := fun _ => none, store := fun _ => none,
-    hasStore := hasStore, pc := fun _ => .idle, lock := fun _ => none, queue := fun _ => [], owner := fun _ => none, fetched := [] }
+    hasStore := hasStore, pc := fun _ => .idle, lock := fun _ => none, queue := fun _ => [], owner := fun _ => none, fetched := [], ups := fun _ => 0 }
 
 inductive Event
   | arrive (t : Tid) (k : Key)          -- a GET/HEAD request for key k enters the cache middleware
@@ -166,9 +167,9 @@ def step (reread : Bool) (s : State) : Event → Option State
     match s.pc t with
     | .fetchUp e =>
       (match o with
-       | .cacheable ttl _ => if ttl > 0 then some { s with pc := upd s.pc t (.fetchDone e o) } else none
-       | .fail => some { s with pc := upd s.pc t (.fetchDone e o) })
-    | .passUp => some { s with pc := upd s.pc t (.done .passed) }
+       | .cacheable ttl _ => if ttl > 0 then some { s with pc := upd s.pc t (.fetchDone e o), ups := upd s.ups t (s.ups t + 1) } else none
+       | .fail => some { s with pc := upd s.pc t (.fetchDone e o), ups := upd s.ups t (s.ups t + 1) })
+    | .passUp => some { s with pc := upd s.pc t (.done .passed), ups := upd s.ups t (s.ups t + 1) }
     | _ => none
   | .complete t hfp =>
     match s.pc t with
@@ -223,7 +224,7 @@ def step (reread : Bool) (s : State) : Event → Option State
     | _ => none
   | .tick d => if d > 0 then some { s with now := s.now + d } else none
   | .crash =>
-    some { s with shard := fun _ => none, pc := fun _ => .idle, lock := fun _ => none, owner := fun _ => none, queue := fun _ => [],
+    some { s with shard := fun _ => none, pc := fun _ => .idle, lock := fun _ => none, owner := fun _ => none, queue := fun _ => [], ups := fun _ => 0,
                   entries := fun e => { s.entries e with waiters := [], status := .unknown, expiredAt := 0 } }
 
 /-- run a schedule; `none` if some event was not enabled -/
